@@ -194,6 +194,12 @@ class Slicer:
                             cs = fn.canon(st['lhs'])
                             if place_str(cs) == n[1]:
                                 self._rv_edges(n, st['rv'], sl)
+                                if self.control:
+                                    # a conditional store: the stored value also depends on the branch that selects it
+                                    for (p, s_) in fn.control_deps().get(b, ()):
+                                        sw = fn.blocks[p]['term']
+                                        if sw['k'] == 'switch':
+                                            self._add(n, self._node_of_operand(sw['op'], sl), sl)
                     t = blk['term']
                     if t['k'] == 'call' and t['dest']['p'] and place_str(fn.canon(t['dest'])) == n[1]:
                         self._call_edges(n, b, t, sl)
